@@ -23,12 +23,17 @@ NOT_DECIDED = "Which csp rules match a concrete request (C01-C03); the order of 
 def check(run):
     for cfg in run.cfgs("A", "B"):
         F = run.facts(cfg)
+        from analysis.guards import rule_visits_all as _rva
+        run.guard("C15.5.every-rule", cfg, lambda: _rva(run, "C15.5.every-rule", F, cfg, ['blocker::Blocker::get_csp_directives'],
+                  'The policy is the union over ALL matching csp rules minus ALL excepted directives', minimum=1))
         run.guard("C15.1.type-gate", cfg, lambda: rule_type_gate(run, F, cfg))
         run.guard("C15.3.set-algebra", cfg, lambda: rule_sets(run, F, cfg))
         run.guard("C15.3.set-algebra", cfg + "/merge", lambda: rule_merge(run, F, cfg))
         run.guard("C15.4.parse-guard", cfg, lambda: rule_parse(run, F, cfg))
         b = run.borrow("C01", why="a multi-domain $csp rule must be stored under every one of its domain tokens")
         run.guard("C15.via.C01.1.token-source", cfg, lambda: _C01.rule_store(b, F, cfg))
+        bi = run.borrow("C01", why="csp rules / exceptions that differ only by their tag are different rules (not de-duplicated)")
+        run.guard("C15.via.C01.7.rule-identity", cfg, lambda: _C01.rule_identity(bi, F, cfg))
         b2 = run.borrow("C03", why="a csp directive may contain '=' itself")
         run.guard("C15.via.C03.7.option-split", cfg, lambda: _C03.rule_option_split(b2, F, cfg))
         from . import C05 as _C05
@@ -47,6 +52,9 @@ def check(run):
         bg = run.borrow("C07", only=r"check_all", why="every matching rule of the list is collected by check_all")
         run.guard("C15.via.C07.2.gate-shape", cfg, lambda: _C07g.rule_gate_shape(bg, F, cfg))
         run.guard("C15.via.C03.1.option-chain", cfg, lambda: (_C03.rule_chain(b4, F, cfg), _C03.rule_polarity(b4, F, cfg)))
+        from . import C07 as _C07d
+        bd = run.borrow("C07", why="tagged csp rules and exceptions sit in the csp list and are gated by the enabled set at match time: the caller's set must be re-applied after every load, whatever the loaded data contains")
+        run.guard("C15.via.C07.4.deserialize", cfg, lambda: _C07d.rule_deserialize(bd, F, cfg))
 
 
 def rule_type_gate(run, F, cfg):
